@@ -375,6 +375,25 @@ func Run(r *core.Run) {
 			} else {
 				add("suffix/request-suffix-changed", withField("didSuffix", "EiOtherSuffix"))
 				add("suffix/signed-suffix-changed-resigned", ops.Bytes(build(signer, nil, func(pl ops.M) { pl["didSuffix"] = "EiOtherSuffix" }, nil)))
+				// signed suffix absent, empty, a tail or an extension of the operation's suffix (re-signed by the genuine key: what the key
+				// holder signed is not a deactivation of this DID)
+				add("suffix/signed-suffix-missing-resigned", ops.Bytes(build(signer, nil, func(pl ops.M) { delete(pl, "didSuffix") }, nil)))
+				add("suffix/signed-suffix-empty-resigned", ops.Bytes(build(signer, nil, func(pl ops.M) { pl["didSuffix"] = "" }, nil)))
+				add("suffix/signed-suffix-tail-resigned", ops.Bytes(build(signer, nil, func(pl ops.M) { pl["didSuffix"] = suffix[len(suffix)-6:] }, nil)))
+				add("suffix/signed-suffix-extended-resigned", ops.Bytes(build(signer, nil, func(pl ops.M) { pl["didSuffix"] = "x:" + suffix }, nil)))
+				add("suffix/request-suffix-extended", withField("didSuffix", "ref:"+suffix))
+				// the signed data of a genuine recover by the same key, replayed as a deactivate (nothing in it was signed for that)
+				{
+					d := ops.Delta(ops.Commitment(next1, code), patch)
+					rsd := ops.Sign(signer, ops.RecoverPayload(signer, ops.HashOf(d, code), ops.Commitment(next2, code), "origin", ops.Window{}))
+					add("cross-type/recover-signed-data-as-deactivate", ops.Bytes(ops.Request("deactivate", suffix, ops.Reveal(signer, code), rsd, nil)))
+					add("cross-type/recover-signed-data-as-deactivate-with-delta", ops.Bytes(ops.Request("deactivate", suffix, ops.Reveal(signer, code), rsd, d)))
+				}
+			}
+			if typ == operation.TypeRecover {
+				// the signed data of a genuine deactivate by the same key, replayed as a recover with an attacker's delta
+				dsd := ops.Sign(signer, ops.DeactivatePayload(signer, suffix, ops.Reveal(signer, code), ops.Window{}))
+				add("cross-type/deactivate-signed-data-as-recover", ops.Bytes(ops.Request("recover", suffix, ops.Reveal(signer, code), dsd, evil)))
 			}
 			// 7. headers (re-signed, so the signature itself is good)
 			for _, h := range joseHeaders {
